@@ -153,6 +153,8 @@ def integerize_arch(model: nn.Module,
         mod = remove_relu(mod)
         # Remove input quantizer
         mod = remove_inp_quantizer(mod)
+        # Explicit zero paddings must write the offset-signed image of 0
+        mod = offset_zero_padding(mod)
     mod.delete_all_unused_submodules()
     mod.graph.lint()
     mod.recompile()
@@ -174,6 +176,34 @@ def remove_inp_quantizer(mod: nn.Module) -> nn.Module:
             node.replace_all_uses_with(node.args[0])
             mod.graph.erase_node(node)
     mod.delete_all_unused_submodules()
+    mod.graph.lint()
+    mod.recompile()
+    return mod
+
+
+def offset_zero_padding(mod: nn.Module) -> nn.Module:
+    """MAUPITI activations are offset-signed: a real 0 is the level -2**(precision - 1).
+    An explicit zero padding (nn.ZeroPad2d, nn.ConstantPad2d(..., 0)) left between two integer
+    layers has to pad with that level, as the integer convolutions do for their own padding.
+    """
+    if not isinstance(mod, fx.GraphModule):
+        msg = f'Input is of type {type(mod)} instead of fx.GraphModule'
+        raise ValueError(msg)
+    mod = cast(fx.GraphModule, mod)
+    modules = dict(mod.named_modules())
+    for n in mod.graph.nodes:
+        m = modules.get(n.target) if n.op == 'call_module' else None
+        if isinstance(m, nn.ConstantPad2d) and m.value == 0:  # nn.ZeroPad2d is a ConstantPad2d
+            # the integer layer that consumes the padded tensor gives the input precision
+            user, layer = n, None
+            while layer is None and len(user.users) > 0:
+                user = next(iter(user.users))
+                cand = modules.get(user.target) if user.op == 'call_module' else None
+                if isinstance(getattr(cand, 'in_quantizer', None), Quantizer):
+                    layer = cand
+            if layer is not None and layer.in_quantizer.precision is not None:
+                offset = -2 ** (layer.in_quantizer.precision - 1)
+                mod.add_submodule(str(n.target), nn.ConstantPad2d(m.padding, offset))
     mod.graph.lint()
     mod.recompile()
     return mod
